@@ -445,7 +445,7 @@ def part_b(tier, wd, agg, cov):
                 key = {"level": "script", "shapes": ",".join(shapes), "who": who}
                 if not shapes:
                     key["step"] = v["steps"][-1]
-                    key["fields"] = ",".join(sorted(set(sum(dev.values(), []))))
+                    key["fields"] = ",".join(sorted({f for d in dev.values() for f in (d if isinstance(d, (list, dict)) else [str(d)])}))
                 agg.add(key, f"script behaves differently ({who}): {' ; '.join(v['steps'])}",
                         {"level": "script", "tree": header["tree"], "steps": v["steps"], "pred": v["pred"], "dev": dev,
                          "sim": v["sim"], "real": v["real"]})
